@@ -5,6 +5,7 @@ import ast
 import re
 
 from ..context import Context
+from ..guards import guards_of
 from ..load import FuncInfo, chain, kw, norm, own_nodes, parent
 from .common import NET_OPS, fkey, in_net_class, net_sites, trees, where
 
@@ -391,3 +392,45 @@ def run(ctx: Context) -> None:  # noqa: F811
     _core_run(ctx)
     ctx.rep.rule("C16.R5", "requests the library derives from the caller's request (proxied request, CONNECT) carry the caller's whole extensions mapping")
     _derived_requests(ctx)
+
+
+
+_core_run_r6 = run
+
+
+def run(ctx: Context) -> None:  # noqa: F811
+    _core_run_r6(ctx)
+    rep = ctx.rep
+    rep.rule("C16.R6", "a zero pool timeout still succeeds when no waiting is needed (async tree): every wait on a synchronisation primitive that can end in PoolTimeout is entered only under a "
+                       "test that waiting IS needed - anyio / trio check the (already expired) deadline at the primitive's first checkpoint, also when the resource is free")
+    syn = ctx.prog.module("httpcore._synchronization")
+    n = 0
+    N = ctx.names("async")
+    for m in N.modules():
+        for f in m.all_functions():
+            for site in ctx.callgraph.sites_of(f):
+                # a timed wait of an async primitive whose routine names PoolTimeout (explicit raise, map_exceptions target, default of an exception parameter)
+                tg = [t for t in site.repo_targets() if t.module is syn and t.is_async and any(isinstance(x, ast.Name) and x.id == "PoolTimeout" for x in ast.walk(t.node))]
+                call = site.node if isinstance(site.node, ast.Call) else next((c for c in ast.walk(site.node) if isinstance(c, ast.Call)), None)
+                if not tg or call is None or not (call.args or any(k.arg == "timeout" for k in call.keywords)):
+                    continue
+                n += 1
+                node = site.node
+                gs = [g for g in guards_of(node) if any(x is f.node for x in _anc(g[0]))]
+                # a test of the state the wait is for: a field of the waiting object, compared / tested for presence
+                need = [norm(getattr(t, "_orig", t)) for t, _ in gs if any(isinstance(x, ast.Attribute) and isinstance(x.value, ast.Name) and x.value.id == "self" for x in ast.walk(t))
+                        and not any(isinstance(x, ast.Call) for x in ast.walk(t))]          # a plain state test (`self.connection is None`), not an entry gate that calls something
+                ok = bool(need)
+                rep.ob("C16.R6", fkey("async", f, f"pool-wait:{norm(node)[:50]}"), ok, where(f, node),
+                       f"`{ast.unparse(node)[:60]}` (can raise PoolTimeout) is entered only when {need[:2]}" if ok else
+                       f"`{ast.unparse(node)[:60]}` can raise PoolTimeout and is entered unconditionally: with a pool timeout of 0 the deadline has expired before the primitive's first "
+                       "checkpoint, so the request fails with PoolTimeout although nothing had to be waited for (a free stream slot, an uncontended lock)")
+    rep.floor("C16.R6", "waits that can end in PoolTimeout (async tree)", n, 1)
+
+
+def _anc(n: ast.AST):
+    from ..load import parent as _p
+    x = _p(getattr(n, "_orig", n))
+    while x is not None:
+        yield x
+        x = _p(x)
